@@ -89,7 +89,8 @@ class CHECK(Check):
             "int boundaries +-1 of every width and random values, random finite float64 bit patterns, values that are "
             "exact in the narrower width and their neighbours, subnormals, overflow to inf, literals of every length, "
             "dates, None/NaN/NaT; each case writes, reads back and writes again; (c) single fields written into "
-            "arbitrary pre-existing buffers of every length. non-trivial = not all values missing; distinct = hash")
+            "arbitrary pre-existing buffers of every length. non-trivial = not all values missing; distinct = hash"
+            " Later additions: values handed over as numpy scalars / bool / pd.NA; value lists shorter than the layout; nudged midpoints between adjacent narrow floats.")
     exhaustive = True
 
     @staticmethod
